@@ -1,4 +1,4 @@
-import CardVerif.Spec.Legality
+import CardModel.Spec.Legality
 import CardVerif.Props.C14
 import CardVerif.Proofs.Progress
 import CardVerif.Proofs.Termination
